@@ -35,3 +35,17 @@ package evm
 //@ loop #1
 //@   invariant true
 //@   step[C19.mgp.enough] !res_LT_0
+
+// C19 (a transaction whose sender cannot pay the value it transfers is rejected at no cost): every message that carries
+// a positive value - a call and a contract creation alike - goes on only if the EVM's transfer check accepted it.
+//@ func (CanTransferDecorator).AnteHandle#next
+//@   flag assumed
+//@   modifies state(ctx), trace
+
+//@ func (CanTransferDecorator).AnteHandle
+//@   flag noframe
+//@   flag pure=GetParams,EthereumConfig,ChainID,MakeSigner,NewInt,BlockHeight,GetMsgs,GetBaseFee,AsMessage,IsLondon,GasFeeCap,Cmp,Wrapf,Wrap,HeaderHash,Bytes,BytesToHash,NewEmptyTxConfig,NewNoOpTracer,Value,Sign,From,To
+//@   flag havoc=statedb.New,NewEVM,CanTransfer
+//@ loop #1
+//@   invariant true
+//@   step[C19.ctd.funds] res_Sign_0 > 0 ==> defined(res_CanTransfer_0) && res_CanTransfer_0
